@@ -266,7 +266,11 @@ func c19SchedulesPass(out *c19WorkerOut, thorough bool, shard, shards int) {
 	alpha := c19Alphabet()
 	in := c19Build(0, heapAlloc{})
 	seq := c19Forward(alpha, in) // also the warm-up
-	pick := c19PickByLength(alpha, in)
+	target := 24
+	if thorough {
+		target = 40
+	}
+	pick := c19PickByLength(alpha, in, target)
 	progs := c19Programs(thorough, pick)
 	base := c19HashGlobals()
 	setHook := func(f func(int)) { verifsched.Hook = f }
@@ -348,8 +352,7 @@ func schedChoices(e *mc.SchedExec) []int { return e.Choices() }
 // points not above a target (so that loops are entered but executions stay
 // short enough to enumerate all schedules); different slots get different
 // variants where possible.
-func c19PickByLength(alpha []c19Call, in *c19In) func(ci, slot int) int {
-	const target = 24
+func c19PickByLength(alpha []c19Call, in *c19In, target int) func(ci, slot int) int {
 	choice := make([][3]int, len(alpha))
 	for ci := range alpha {
 		n := alpha[ci].N(in)
